@@ -229,13 +229,18 @@ pub fn check(case: &Case, idx: u64, acc: &mut Acc) {
         Case::Word { w, bmask, smask } => {
             let z0 = days_from_civil(2024, 2, 26); // Monday
             let (n, b) = super::c04::word_days(w, z0);
-            // holidays are handed over in date order, reversed, or interleaved (the order of supply must not matter)
+            // holidays are handed over in date order, reversed, interleaved, or each twice (the supply must not matter)
             let mut nn = n.clone();
-            match idx % 3 {
+            match idx % 4 {
                 1 => nn.reverse(),
                 2 => {
                     let (ev, od): (Vec<i64>, Vec<i64>) = (nn.iter().step_by(2).cloned().collect(), nn.iter().skip(1).step_by(2).cloned().collect());
                     nn = od.into_iter().chain(ev).collect();
+                }
+                3 => {
+                    // every holiday listed twice (once in order, once reversed behind it)
+                    let rev: Vec<i64> = nn.iter().rev().cloned().collect();
+                    nn.extend(rev);
                 }
                 _ => {}
             }
@@ -349,7 +354,7 @@ pub fn cases(tier: Tier) -> Vec<Case> {
             }
         }
     }
-    for r in [12i64, 35, 64] {
+    for r in [12i64, 35, 64, 367, 430] {
         for start in 0..7 {
             for b in [0i64, 3] {
                 out.push(Case::Run { r, start, b });
@@ -401,7 +406,7 @@ pub fn run(ctx: &Ctx, replay_file: Option<String>) -> ! {
          window, on top of periodic week masks for the business calendar (none, Sat-Sun, Fri-Sat, Mon-Fri closed) and \
          the settlement calendar (absent, Sat-Sun, Sun+Mon, none); EVERY i8 day count, both settlement flags, every \
          start date of the window +-1: add_bus_days (value, error on a non-business start, inverse law), lag, \
-         add_days under all 5 modifiers, bus_date_range for every (start, end) pair. (1b) long runs of 12, 35 and 64 consecutive closures at every weekday alignment, every i8 count from the days \
+         add_days under all 5 modifiers, bus_date_range for every (start, end) pair; the holiday vector is handed over in date order, reversed, interleaved or with every date twice (by case index). (1b) long runs of 12, 35, 64, 367 and 430 consecutive closures at every weekday alignment, every i8 count from the days \
          around both ends of the run. (2) named calendars: every date \
          of several years x every i8; every built-in calendar over every date 1970-2200 x a reduced count menu \
          (|n|<=10 and +-20,63,64,100,126,127,-128). Oracle: index arithmetic on the sorted list of the calendar's own \
